@@ -14,6 +14,7 @@ use crate::model::Model;
 use crate::rng::Rng;
 use crate::world::{open_core, CallSnap, Cfg, Res, ScanMode, Step, Viol, World};
 use hypercore::Hypercore;
+use crate::merkle::RefTree as RefTreeAlias;
 
 pub struct Obs {
     pub length: u64,
@@ -321,6 +322,14 @@ fn resume(base: &Base, subject_disk: Disk, subject_core: Hypercore, model: Model
     let mut w = World::new(cfg);
     w.truth = base.world.truth.clone();
     w.reftree = base.world.reftree.clone();
+    if base.node == 0 && model.length < w.truth.len() {
+        // the writer recovered to an earlier state: its history ends there, the suffix appends anew
+        let l = model.length as usize;
+        w.truth.blocks.truncate(l);
+        w.truth.offsets.truncate(l + 1);
+        w.truth.signed.retain(|s| s.0 <= model.length);
+        w.reftree = RefTreeAlias::from_blocks(&w.truth.blocks);
+    }
     for n in 0..w.nodes.len() {
         if n == base.node {
             w.nodes[n].disk = subject_disk.clone();
@@ -386,6 +395,10 @@ fn run_suffix(
             msg: format!("{at}; then suffix step {}: [{}] {}", v.step, v.clause, v.msg),
         })
         .collect();
+    // tree / layout judges attached to the suffix world keep their own clause
+    for x in w.viols.iter().filter(|v| v.clause.starts_with("C05.") || v.clause.starts_with("C06.")) {
+        v.push(Viol { clause: x.clause.clone(), step: x.step, msg: format!("{at}; then suffix step {}: {}", x.step, x.msg) });
+    }
     // second crash inside the suffix
     if v.is_empty() && w.aborted.is_none() {
         let j2 = disk.lock().journal.clone();
